@@ -34,7 +34,10 @@ var c16Table = map[string]c16Spec_{
 	"Delete": {[]string{"DELETE"}, "/{id}"},
 }
 
-type c16Rec struct{ log []string }
+type c16Rec struct {
+	log  []string
+	uses map[string][]rux.HandlerFunc
+}
 
 func (r *c16Rec) hit(x *rux.Context, action string) {
 	r.log = append(r.log, "action:"+action+":"+x.Param("id"))
@@ -42,14 +45,18 @@ func (r *c16Rec) hit(x *rux.Context, action string) {
 
 type c16Uses struct{ rec *c16Rec }
 
-// Uses returns distinct middleware for every action, implemented or not.
+// Uses returns distinct middleware for every action, implemented or not. The table is built once per
+// recorder and handed out again on every call (a controller may well keep it in a field).
 func (u c16Uses) Uses() map[string][]rux.HandlerFunc {
-	m := map[string][]rux.HandlerFunc{}
-	for _, a := range c16Actions {
-		a := a
-		m[a] = []rux.HandlerFunc{func(c *rux.Context) { u.rec.log = append(u.rec.log, "mw:"+a) }}
+	if u.rec.uses == nil {
+		m := map[string][]rux.HandlerFunc{}
+		for _, a := range c16Actions {
+			a := a
+			m[a] = []rux.HandlerFunc{func(c *rux.Context) { u.rec.log = append(u.rec.log, "mw:"+a) }}
+		}
+		u.rec.uses = m
 	}
-	return m
+	return u.rec.uses
 }
 
 // wrong-shaped controllers
@@ -78,7 +85,8 @@ type c16Case struct {
 	Uses     bool   `json:"uses"`
 	Base     string `json:"base"`
 	Group    bool   `json:"in_group"`
-	Kind     string `json:"kind"` // subset | bad
+	Root     bool   `json:"group_prefix_is_root,omitempty"` // the enclosing group is Group("/")
+	Kind     string `json:"kind"`                           // subset | bad
 }
 
 func c16Gen(tier string, emit func(c16Case)) {
@@ -91,6 +99,9 @@ func c16Gen(tier string, emit func(c16Case)) {
 						continue
 					}
 					emit(c16Case{Kind: "subset", Mask: mask, Uses: uses, Base: base, Group: grp, Thorough: tier == "thorough"})
+					if grp && (mask+bi)%4 == 0 {
+						emit(c16Case{Kind: "subset", Mask: mask, Uses: uses, Base: base, Group: true, Root: true, Thorough: tier == "thorough"})
+					}
 				}
 			}
 		}
@@ -165,10 +176,14 @@ func c16Run(c c16Case, st *fw.Stats) []fw.Viol {
 		resName = fmt.Sprintf("resu%03d", c.Mask)
 	}
 	prefix := ""
-	if c.Group {
-		prefix = "/g"
+	gp := "/g"
+	if c.Root {
+		gp = "/"
 	}
-	resPath := refmodel.Norm(prefix+refmodel.Norm(c.Base+resName, false), false)
+	if c.Group {
+		prefix = gp
+	}
+	resPath := refmodel.Norm(refmodel.Norm(prefix, false)+refmodel.Norm(c.Base+resName, false), false)
 	desc := fmt.Sprintf("controller implementing %v (Uses=%v) Resource(%q) in group=%v", impl, c.Uses, c.Base, c.Group)
 
 	// expected table
@@ -252,7 +267,7 @@ func c16Run(c c16Case, st *fw.Stats) []fw.Viol {
 					gm := make([]rux.HandlerFunc, 2, 8)
 					gm[0] = func(x *rux.Context) { rec.log = append(rec.log, "g0") }
 					gm[1] = func(x *rux.Context) { rec.log = append(rec.log, "g1") }
-					r.Group("/g", func() { r.Resource(c.Base, ctl) }, gm...)
+					r.Group(gp, func() { r.Resource(c.Base, ctl) }, gm...)
 				} else {
 					r.Resource(c.Base, ctl)
 				}
@@ -275,6 +290,17 @@ func c16Run(c c16Case, st *fw.Stats) []fw.Viol {
 			}
 			gotKey := strings.Join(got, ",")
 			st.Inc("registrations", 1)
+			if c.Uses && draw == 0 && !c.Group {
+				// the same controller registered a second time (another router): it must get the same table again
+				r2 := rux.New()
+				if pv := try(func() { r2.Resource(c.Base, c16New(c.Mask, c.Uses, rec)) }); pv != nil {
+					add("resource:panic", fmt.Sprintf("%s: second registration panicked: %v", desc, pv))
+					return vs
+				}
+				if !c16CheckTable(r2, c, desc+" (registered a second time; its Uses() table is a shared map)", impl, resPath, resName, add) {
+					return vs
+				}
+			}
 			// the registered table is compared on every draw (cheap); the request probes once per distinct order
 			if !c16CheckTable(r, c, desc+fmt.Sprintf(", registration order %v", got), impl, resPath, resName, add) {
 				return vs
@@ -409,7 +435,7 @@ var c16Spec = fw.Spec[c16Case]{
 	Workers: 1,
 	// the only nondeterminism is Go's map iteration order inside Resource (code under test): a confirmation replay may be retried
 	ReplayAttempts: 40,
-	Rule: "complete enumeration: all 128 subsets of the seven actions as controller method sets (generated types) x with/without Uses() (distinct middleware for every action, implemented or not) x base in {/, /api/, \"\"} x inside/outside a group; registration order inside Resource is Go map order: it is DRIVEN through the insertion order of the exported rux.RESTFulActions and OBSERVED from rux's own debug print, and registration is repeated until every permutation of the implemented actions (k<=4, thorough k<=6 on the plain base; all rotations of two base orders beyond) has been observed; " +
+	Rule: "complete enumeration: all 128 subsets of the seven actions as controller method sets (generated types) x with/without Uses() (distinct middleware for every action, implemented or not) x base in {/, /api/, \"\"} x outside a group / inside Group(/g) / inside Group(/) (group middleware passed with spare capacity); the same controller (whose Uses() table is one shared map) registered twice; registration order inside Resource is Go map order: it is DRIVEN through the insertion order of the exported rux.RESTFulActions and OBSERVED from rux's own debug print, and registration is repeated until every permutation of the implemented actions (k<=4, thorough k<=6 on the plain base; all rotations of two base orders beyond) has been observed; " +
 		"per observed order: Routes()/NamedRoutes() equal the documented table exactly, all 9 methods x 8 probe paths dispatch as the reference resolver says over that table (create never served by show, nothing else reachable), per-action middleware runs only for its action; non-pointer / non-struct / wrong-shaped controllers; non-trivial = a distinct (subset, order) registration",
 	Assume: []string{"runs single-threaded: RESTFulActions, the debug switch and the colour output are process-global", "Go's small-map iteration starts at a random offset of the insertion order; an order not seen within 400 draws is reported as a cap, never as a violation"},
 	Bounds: func(tier string) map[string]any {
